@@ -70,8 +70,8 @@ def check_generated_structure(src):
             is_funcs = isinstance(callee, ast.Subscript) and isinstance(callee.value, ast.Name) and callee.value.id == 'funcs'
             is_named = isinstance(callee, ast.Name) and callee.id in ('endpoint', 'render')
             if is_funcs or is_named:
-                if node.args:
-                    problems.append('positional argument in generated call')
+                # (positional arguments cannot be judged structurally; the identity comparison of the
+                # recorded arguments covers them)
                 for kw in node.keywords:
                     if kw.arg is None or not isinstance(kw.value, ast.Name) or kw.value.id != kw.arg:
                         problems.append('keyword %r bound to %s' % (kw.arg, ast.dump(kw.value)))
